@@ -15,11 +15,20 @@
 (* iteration order of a randomly seeded hash map differs between           *)
 (* processes).  Emit takes one entry at a time in an order the discipline  *)
 (* allows.                                                                 *)
+(* Besides the iteration orders the output contains generated values: the  *)
+(* name of an implicit component is a hash of (module location, scope id,  *)
+(* node), where the scope id comes from a counter; defaults (examples)     *)
+(* could be computed from ambient state.  The ambient state of a run - how *)
+(* many compilations the process did before (`prior`) and the wall clock   *)
+(* (`clock`) - is chosen freely in Init; AmbientFree says the generated     *)
+(* values are those of the run with prior = 0 and clock = 0.               *)
 (***************************************************************************)
 EXTENDS Naturals, Sequences, FiniteSets, TLC
 
 CONSTANTS Keys,               \* e.g. {"a", "b", "c"}
-          ExamplesDiscipline  \* "source" (the design) or "hashed" (the pinned implementation)
+          ExamplesDiscipline, \* "source" (the design) or "hashed" (the pinned implementation)
+          ScopeCounter,       \* "per-evaluation" (eval.rs: Context::scope_id_seq) or "per-process" (a static counter)
+          DefaultsReadClock   \* FALSE in the code: no default value is computed from the time of the run
 
 Collections == {"refs", "ranges", "xfers", "props", "examples"}
 Discipline(c) == CASE c = "examples" -> ExamplesDiscipline
@@ -30,10 +39,20 @@ Discipline(c) == CASE c = "examples" -> ExamplesDiscipline
 Inj(S) == {f \in [1..Cardinality(S) -> S] : \A a, b \in 1..Cardinality(S) : a # b => f[a] # f[b]}
 Sources == UNION {Inj(S) : S \in SUBSET Keys}
 
-VARIABLES coll, src, left, out
-vars == <<coll, src, left, out>>
+VARIABLES coll, src, left, out,
+          prior, clock          \* ambient state of the run: earlier compilations in this process, wall clock
+vars == <<coll, src, left, out, prior, clock>>
 
-Init == coll \in Collections /\ src \in Sources /\ left = {src[i] : i \in 1..Len(src)} /\ out = <<>>
+Init == /\ coll \in Collections /\ src \in Sources /\ left = {src[i] : i \in 1..Len(src)} /\ out = <<>>
+        /\ prior \in 0..2 /\ clock \in 0..2
+
+\* every compilation pushes ScopesPerRun scopes; the k-th scope of this run gets the id
+ScopesPerRun == 2
+ScopeId(k) == IF ScopeCounter = "per-evaluation" THEN k ELSE prior * ScopesPerRun + k
+GeneratedName(k) == <<"hash", ScopeId(k)>>                 \* location and node are functions of the sources
+DefaultExample == IF DefaultsReadClock THEN clock ELSE 0
+AmbientFree == /\ \A k \in 1..ScopesPerRun : GeneratedName(k) = <<"hash", k>>
+               /\ DefaultExample = 0
 
 Rank(k) == CHOOSE i \in 1..Len(src) : src[i] = k
 
@@ -45,7 +64,7 @@ Eligible ==
 
 Emit == /\ left # {}
         /\ \E k \in Eligible : out' = Append(out, k) /\ left' = left \ {k}
-        /\ UNCHANGED <<coll, src>>
+        /\ UNCHANGED <<coll, src, prior, clock>>
 Done == left = {} /\ UNCHANGED vars
 Next == Emit \/ Done
 Spec == Init /\ [][Next]_vars /\ WF_vars(Emit)
